@@ -28,6 +28,30 @@ CHECKS = {
    text="Proof: Lens[S,A] is a pair of abstract functions get/put of the instance; Get/Put contracts say what is read and that *s becomes put(*s,a) with the same pointer returned and nothing else modified. join, fmap (Getter), cmap (Setter), codec (BiMap), lensM, shape2..9 (against Lens2..9, positionally) and iso/morphism (against Isomorphism, loop invariant over a fold that skips nil entries) are verified against these contracts through model clauses; constructors are verified to return instances with those models; the lens laws for Join and BiMap and the Forward/Inverse round trip are SMT lemmas over the models (lawful components => lawful composite).",
    note="Trusted: as C20; conversions in BiMapS/B/I/F are uninterpreted (their being mutually inverse is the hypothesis of the bimap lemmas); maps are total SMT arrays (a nil map is not modelled); the morphism round-trip lemma is stated for one iso - for several isos it needs pairwise independent target foci (DESIGN section 7); ForProductN/ForShapeN constructors belong to C01/C02.",
    tech="contract-based deductive verification: ghost-method models of interface instances, behavioural subtyping, SMT lemmas over the models", ref="6/C04"),
+ "C05": dict(
+   text="Local proof + channel axioms: each stage goroutine (Map, FMap, Filter, Take, TakeWhile, Partition, Fold, ForEach, Void) and Seq/ToSeq is verified against loop invariants sent(out) = listfunction(rcvd(in)) over snoc traces (tmapok, tflat, tfilter/tfilternot, all-kept prefix, left fold from Empty()) and postconditions that, without cancel, the input was drained, the equality holds, and every created channel is closed exactly once with the send/close permission; Take forwards what it consumes, consumes at most n for every n >= 0 and stops early only at end of input. Capacities do not appear.",
+   note=PIPE_NOTE + " FMap relies on the stated arrow contract (the arrow sends exactly its image on the channel it is given). ForEach/Void: 'one visit per element' is structural (one Apply per received element), not a separate trace obligation.",
+   tech="contract-based deductive verification: goroutine-local ghost traces, permission ghost state, loop invariants over recursive trace functions", ref="6/C05, 4"),
+ "C06": dict(
+   text="Local proof + channel axioms for all stage goroutines incl. Emit, Unfold, Join, Throttling, StdErr and the four catch implementations: no send without permission or after own close, close exactly once on every exit path (deferred closes expanded), no library panic (nil, bounds, negative capacity under the stated preconditions), delivered-is-a-prefix of the uncancelled result on every exit (with monotonicity lemmas proved by induction each run), and the progress conditions of DESIGN 4.3. One known finding: Fold delivers a partial fold on cancel.",
+   note=PIPE_NOTE, cat="other",
+   tech="contract-based deductive verification: channel permission protocol, prefix invariants, progress conditions", ref="6/C06, 4.3"),
+ "C07": dict(
+   text="Local proof + channel axioms: the F/FF interface contracts carry a ghost mode (failfast / try); pure, try, puref, tryf are verified against errch (fail-fast error channel has a free slot) and catch (fail-fast: sends and returns false; try: sends and returns true or observes cancel). Map, FMap, Emit, Unfold are verified for both modes at once: values = results of succeeding elements in order, errors = errors of failing elements in order, fail-fast stops right after the first failing element with exactly that error, both channels closed; bare error sends are justified by slot tokens.",
+   note=PIPE_NOTE,
+   tech="contract-based deductive verification: interface contracts with ghost mode, trace invariants split by the failure predicate", ref="6/C07"),
+ "C11": dict(
+   text="Local proof + channel axioms: Unfold: sent(out) = [seed, f seed, ...] (titer) with the loop-carried seed = f^k(seed0); Emit: sent(out)/sent(exx) are the successes/failures of f over 0..i-1, at most one application per completed Sleep (i <= sleeps, |sent| <= sleeps at every loop head and exit); both close on every exit, exit only on cancel or first fail-fast error, and every iteration observes cancellation.",
+   note=PIPE_NOTE + " Not decided: 'a consumer that keeps up receives one value per tick' (needs an upper bound on Sleep). Integer overflow of the Emit counter is not checked.",
+   tech="contract-based deductive verification: trace invariants with ghost tick counter", ref="6/C11"),
+ "C12": dict(
+   text="Local proof + channel axioms: each copier forwards exactly what it received from its own input, in order (prefix under cancel), and calls Done exactly once on every exit; the spawner adds len(in), spawns one copier per input holding one send share (loop invariant), the closer is spawned after all copiers with Add total = spawned and closes only after Wait; no goroutine writes a captured variable another one can access. Zero inputs: the closer closes at once.",
+   note=PIPE_NOTE + " sync.WaitGroup semantics are assumed (Wait returns after as many Done calls as were Added).",
+   tech="contract-based deductive verification: WaitGroup/share permission protocol, per-goroutine trace invariants, race check by ownership", ref="6/C12, 4.2"),
+ "C13": dict(
+   text="Local proof of the mechanism: the data goroutine forwards every element once, in order, after taking one token per element (until the pacer stops) and closes out; the pacer sends exactly ops tokens per completed interval wait (|sent(ctl)| = sleeps*ops + i), the token channel has capacity ops, it exits and closes only on cancel.",
+   note=PIPE_NOTE + " NOT decided by this family: the window bound 2*ops+1+c and the latency clause (timed counts relating two goroutines); they follow from the mechanism contracts by a pen-and-paper argument recorded in DESIGN.md, which is not evidence. The directed probe measures the burst bound on the real code when an obligation fails.", cat="other",
+   tech="contract-based deductive verification of the pacing mechanism (tokens per interval, token per element)", ref="6/C13, 7"),
 }
 
 NA_REASON = "check not built yet in this session (engine under construction; build order in DESIGN.md section 12)"
